@@ -150,3 +150,37 @@ func minimalPush(d []byte) []byte {
 }
 
 func bigInt(v int64) *big.Int { return big.NewInt(v) }
+
+// packScripts re-homes every script of the transaction (unlocking, previous and locking
+// scripts, in order) as adjacent windows of ONE buffer: each script's spare capacity is the
+// bytes of the scripts that follow it, so a library function that appends to a script it
+// was only meant to read overwrites its neighbours - which the callers' before/after
+// comparison of the serialisation then shows.
+func packScripts(tx *bt.Tx) {
+	var all []*bscript.Script
+	for _, in := range tx.Inputs {
+		all = append(all, in.UnlockingScript, in.PreviousTxScript)
+	}
+	for _, o := range tx.Outputs {
+		all = append(all, o.LockingScript)
+	}
+	total := 0
+	for _, s := range all {
+		if s != nil {
+			total += len(*s)
+		}
+	}
+	buf := make([]byte, 0, total+64)
+	for i := 0; i < 64; i++ {
+		buf = append(buf, 0xA5)
+	}
+	buf = buf[:0]
+	for _, s := range all {
+		if s == nil {
+			continue
+		}
+		start := len(buf)
+		buf = append(buf, *s...)
+		*s = bscript.Script(buf[start:len(buf)])
+	}
+}
